@@ -7,6 +7,15 @@ TRUST = ('rustc MIR construction + type checker (nightly 1.97), the mirfacts dri
          '(lint/extern_models.py), dependency crates not analysed; see DESIGN.md 2.1')
 
 CLAIMS = {
+ 'C04': dict(
+    text='Static, all histories by induction over one call: the state-update discipline of H263State is decided on MIR. R1 accessor guard/key '
+         'field agreement (found D5, fixed) and the prediction source is get_reference_picture(); R2 by control dependence in the final section '
+         'of the decode closure: last_picture := Some(TR) always, reference_picture := Some(TR) exactly under !is_disposable, := None only for I '
+         'pictures and before the Some-assignment, insert(TR, picture) always, TR = the stored header\'s temporal_reference; R3 macroblock syntax '
+         'per picture type (found D6, fixed); R4 TR-key aliasing between a disposable picture and the reference (D7: known finding, not repaired); '
+         'R5 who-may-write the three fields + structure of cleanup_buffers; R6 is_disposable folded over all 9 variants, Sorenson code 2. '
+         'Rejected pictures changing nothing is C05. Pixel-level consequences follow from C03.',
+    technique='control-dependence / dominance rules, def-use tracing, mod/ref effects and conditional constant propagation over MIR', ref='6/C04'),
  'C05': dict(
     text='Static, all executions: the structural necessary-and-sufficient shape of atomicity is decided on MIR. T1 decode_next_picture is one reader '
          'transaction; T2/T3 no possibly-Err return is CFG-reachable from any write to *self (direct, or via callee mod/ref summaries) or from commit(); '
